@@ -1,20 +1,40 @@
 (* Parser.v — parser.rs: Parser::new / process / io::Write, plus the public
    Screen mutators reachable through screen_mut(). *)
-Require Import Base Screen Vte Perform.
+Require Import Base Utf8 Screen Vte Perform.
 
 Record parser := mkParser {
   vt : pstate;
   scr : screen;
   log : list event;          (* callback events, oldest first *)
-  resizing : bool }.
+  resizing : bool;
+  pend : list N }.           (* bytes held back: an incomplete utf-8 tail of the input so far *)
 
 Definition parser_new (rows cols cap : N) (resizing : bool) : res parser :=
-  do s <- screen_new rows cols cap; Ok (mkParser p_init s [] resizing).
+  do s <- screen_new rows cols cap; Ok (mkParser p_init s [] resizing []).
 
+(* incomplete_utf8_tail: the length of the longest suffix (at most 3 bytes) which is a proper
+   prefix of a utf-8 encoded character (from_utf8 fails with valid_up_to = 0, error_len = None) *)
+Definition tail_incomplete (n : N) (bs : list N) : bool :=
+  (n <=? len bs) &&
+  (let '(_, valid, stop) := from_utf8 (skipnN (len bs - n) bs) in
+   (valid =? 0) && match stop with UPartial => true | _ => false end).
+
+Definition incomplete_tail (bs : list N) : N :=
+  if tail_incomplete 3 bs then 3
+  else if tail_incomplete 2 bs then 2
+  else if tail_incomplete 1 bs then 1
+  else 0.
+
+(* Parser::process: vte never sees an incomplete utf-8 sequence at the end of a chunk (repair of
+   finding K04a); the held-back tail is prepended to the next chunk *)
 Definition process (p : parser) (bs : list N) : res parser :=
-  let '(v, acts) := advance (vt p) bs in
+  let buf := pend p ++ bs in
+  let keep := incomplete_tail buf in
+  let head := firstnN (len buf - keep) buf in
+  let tail := skipnN (len buf - keep) buf in
+  let '(v, acts) := advance (vt p) head in
   do '(s, evs) <- perform_all (resizing p) (scr p) acts [];
-  Ok (mkParser v s (log p ++ evs) (resizing p)).
+  Ok (mkParser v s (log p ++ evs) (resizing p) tail).
 
 (* io::Write::write = process, reports the whole buffer; flush = identity *)
 Definition write (p : parser) (bs : list N) : res (parser * N) :=
@@ -27,7 +47,7 @@ Inductive api_op :=
 | OpSetSize (r c : N)
 | OpSetScrollback (k : N).
 
-Definition with_scr (p : parser) (s : screen) : parser := mkParser (vt p) s (log p) (resizing p).
+Definition with_scr (p : parser) (s : screen) : parser := mkParser (vt p) s (log p) (resizing p) (pend p).
 
 Definition step (p : parser) (o : api_op) : res parser :=
   match o with
